@@ -430,7 +430,7 @@ def warping_paths(s1, s2, psi_neg=True, keep_int_repr=False, **kwargs):
     """
     s = DTWSettings.for_dtw(s1, s2, **kwargs)
     if s.use_c:
-        return warping_paths_fast(s1, s2, psi_neg=psi_neg, **s.kwargs())
+        return warping_paths_fast(s1, s2, psi_neg=psi_neg, keep_int_repr=keep_int_repr, **s.kwargs())
     if np is None:
         raise NumpyException("Numpy is required for the warping_paths method")
     cost, result_fn, ival_fn = innerdistance.inner_dist_fns(s.inner_dist, use_ndim=s.use_ndim)
